@@ -935,14 +935,23 @@ func checkUnrollFresh(p *Program, r *Report, at *arrayType, tname string, rule s
 		case *ssa.Call:
 			// a helper of the same receiver whose every result is storage or built in that call
 			f := x.Common().StaticCallee()
-			if f != nil && f.Blocks != nil && InModule(f) && depth < 3 && f.Signature.Recv() != nil && len(x.Common().Args) > 0 && origin1(x.Common().Args[0]) == recv {
+			if f != nil && f.Blocks != nil && InModule(f) && depth < 3 {
+				// the callee's own receiver is this view only when it is a method invoked on it; for any other
+				// function only freshly built results can be judged (storage of an unknown object cannot)
+				var calleeRecv ssa.Value
+				if f.Signature.Recv() != nil && len(x.Common().Args) > 0 && origin1(x.Common().Args[0]) == recv {
+					calleeRecv = f.Params[0]
+				}
 				kind := ""
 				for _, ret := range returnsOf(f) {
 					if len(ret.Results) != 1 {
 						return "other"
 					}
 					for _, o2 := range origins(ret.Results[0]) {
-						k := classify(o2, f.Params[0], depth+1)
+						k := classify(o2, calleeRecv, depth+1)
+						if calleeRecv == nil && k != "fresh" {
+							return "other"
+						}
 						if k != "fresh" && k != "storage" {
 							return k
 						}
@@ -1256,6 +1265,16 @@ func checkFlatDecoding(p *Program, r *Report, cOnly bool) {
 			}
 		}
 	}
-	floor := 5
-	r.Floor("R02.9", "flat-position decodings", n, floor)
+	// the decoding may live in a shared helper of package data used by both back-ends: it is judged under C02, and
+	// counts here so that the C back-end's rule does not lose its anchor
+	if n == 0 {
+		for _, fn := range dataFuncs(p) {
+			for _, c := range callsIn(fn) {
+				if f := c.Common().StaticCallee(); f != nil && f.Name() == "IDivMod" {
+					n++
+				}
+			}
+		}
+	}
+	r.Floor("R02.9", "flat-position decodings", n, 1)
 }
